@@ -118,13 +118,15 @@ pub fn enc_ack(frame_base: u32, packet_base: u32, groups: &[(u32, u32, u8)]) -> 
 }
 
 pub fn enc_syn(version: u8, nonce: u32, rate: u32, pkt: u32, alloc: u32, total_len: usize) -> Vec<u8> {
-    let mut b = vec![0u8; total_len.max(22) - 4];
+    // lengths below the 22 bytes of a complete header give a truncated (still CRC-valid) frame
+    let mut b = vec![0u8; 18.max(total_len.max(5) - 4)];
     b[0] = 0;
     b[1] = version;
     b[2..6].copy_from_slice(&nonce.to_be_bytes());
     b[6..10].copy_from_slice(&rate.to_be_bytes());
     b[10..14].copy_from_slice(&pkt.to_be_bytes());
     b[14..18].copy_from_slice(&alloc.to_be_bytes());
+    b.truncate(total_len.max(5) - 4);
     seal(b)
 }
 
@@ -324,9 +326,11 @@ pub fn hostile_frame(r: &mut Rng, victim: &Seen, window_hint: u32, allow_big: bo
         },
         _ => {
             // arbitrary bytes, sometimes with a valid CRC and an arbitrary type byte
-            let len = *r.pick(&[0usize, 1, 4, 5, 6, 14, 15, 100, 1471, 1472]);
-            let mut v: Vec<u8> = (0..len).map(|_| r.below(256) as u8).collect();
-            if r.chance(0.5) && v.len() >= 5 {
+            let len = *r.pick(&[0usize, 1, 2, 3, 4, 4, 5, 5, 6, 7, 8, 9, 14, 15, 100, 1471, 1472]);
+            let fill = r.below(4);
+            let mut v: Vec<u8> = (0..len).map(|_| match fill { 0 => 0u8, 1 => 0xFF, _ => r.below(256) as u8 }).collect();
+            // every length from the bare checksum (an empty body) upwards can carry a valid CRC
+            if r.chance(0.5) && v.len() >= 4 {
                 let n = v.len();
                 v = seal(v[..n - 4].to_vec());
             }
@@ -351,7 +355,8 @@ pub struct Hostile {
     replay_p: f64,
     recorded: Vec<(usize, Vec<u8>)>,
     /// 1 = mostly data frames (never-completing packets), 2 = flood of empty data frames whose ids are 32 apart,
-    /// 3 = packets announced by their short last fragment only
+    /// 3 = packets announced by their short last fragment only, 4 = slot reuse, 5 = complete
+    /// one-fragment packets ordered behind a packet that never arrives
     focus: u8,
     flood_next: std::collections::BTreeMap<usize, u32>,
     /// focus 4: packet ids whose slots are to be reused 4096 ids later
@@ -428,6 +433,30 @@ impl Adversary for Hostile {
                     let id = *next;
                     *next = next.wrapping_add(32);
                     enc_data(id, false, &[])
+                } else if self.focus == 5 && self.rng.chance(0.95) {
+                    // "singles behind a hole": complete one-fragment packets for consecutive ids,
+                    // all ordered behind a packet that never comes, far beyond the advertised
+                    // allocation
+                    let (pbase, pwin, fbase_probe) = match probe {
+                        Probe::Hc(h) => (h.rx_packet_base_id, h.rx_packet_window_size.max(2), Some(h.rx_frame_base_id)),
+                        _ => (self.seen[victim].rx_packet_base.unwrap_or(0), 4096, None),
+                    };
+                    let fbase = fbase_probe.or(self.seen[victim].rx_frame_base).unwrap_or(0);
+                    let fnext = self.flood_next.entry(victim).or_insert(fbase);
+                    if fnext.wrapping_sub(fbase) > 1000 {
+                        *fnext = fbase;
+                    }
+                    let fid = *fnext;
+                    *fnext = fnext.wrapping_add(1);
+                    let off = self.flood_next.entry(victim + 2000).or_insert(1);
+                    if *off >= pwin.min(4096) {
+                        *off = 1;
+                    }
+                    let k = *off;
+                    *off += 1;
+                    let len = if self.rng.chance(0.8) { 1448 } else { self.rng.range(1, 1448) as usize };
+                    let lead = k.min(0xFFFF) as u16;
+                    enc_data(fid, false, &[RawDatagram { seq: pbase.wrapping_add(k) & 0xFFFFF, ch: 0, wlead: lead, clead: lead, frag: 0, last: 0, data: vec![0x6B; len], enc: 2 }])
                 } else if self.focus == 4 && self.rng.chance(0.9) {
                     // "slot reuse": complete packets with inconsistent parent leads (the receiver
                     // moves its window past packets it has received in full but cannot deliver),
